@@ -175,3 +175,67 @@ Proof.
   exists iG_, iH_, i_rule. destruct intra_spectator_witness as (H1 & H2 & H3 & H4 & H5 & H6 & _ & _ & _ & H7 & H8 & H9).
   repeat split; assumption.
 Qed.
+
+(** C04_identity_match_default / C04_in_results_engine_default_partial: bromoethane + water with explicit centre hydrogens
+    (dG / dH), all four template / direction combinations, VF2 := the verified enumerator: the boolean hypotheses hold,
+    _explicit_h raises on no glued ITS, and the reactor's its_list contains an ITS that folds to the reaction *)
+From SK Require Import proof.C04_DefaultChain.
+Definition dc_ok (core invert : bool) : bool :=
+  match rule_of core invert dG dH with
+  | None => false
+  | Some (rc, l, r) =>
+      let host := substrate invert dG dH in
+      let enum := monos_on (tr_host host) (tr_pat l) in
+      let o := own_opts invert true (SMember 0%N) None false in
+      forallb (fun p : N * mnode => 0 <=? m_hc (snd p)) (gnodes l)
+      && negb (has_XH l) && match_okb host (pattern_of l) (id_map (node_ids (pattern_of l)))
+      && (lenN (enum (node_ids (tr_host host)) (node_ids (tr_pat l))) <=? 5000)%N
+      && C06_Model.gwfb (tr_pat l) && C06_Model.nodupb (node_ids (tr_host host))
+      && match compute_mappings (api_engine enum) o host (rc, l, r) with
+         | Some ms => negb (crashed no_rematch o host (rc, l, r) ms)
+         | None => false end
+      && match read_its (api_engine enum) no_rematch o host (rc, l, r) fresh with
+         | (Some gs, _) => existsb (fun T' => regen_folded T' (if invert then dH else dG) (if invert then dG else dH)) gs
+         | _ => false end
+  end.
+Example default_chain_example : forallb (fun ci : bool * bool => dc_ok (fst ci) (snd ci)) [(true, false); (false, false); (true, true); (false, true)] = true.
+Proof. vm_compute. reflexivity. Qed.
+
+(** C04_comp_regenerates_partial / C04_bt_regenerates_partial: the cyclisation of 5-bromopentan-1-ol WITHOUT the spectator
+    (one molecule, centre pattern with two components: fewer substrate components than pattern components, comp is then
+    exhaustive): the hypotheses hold, and comp / bt regenerate the reaction *)
+From SK Require Import proof.C06_Main proof.C04_Glue proof.C04_Template proof.C04_Proof proof.C04_CompBt.
+Definition rG_ : hostg :=
+  LG [(1%N, NA 79%N false 1 0 [67%N]); (2%N, NA 67%N false 2 0 [67%N; 79%N]); (3%N, NA 67%N false 2 0 [67%N; 67%N]);
+      (4%N, NA 67%N false 2 0 [67%N; 67%N]); (5%N, NA 67%N false 2 0 [17010%N; 67%N]); (6%N, NA 17010%N false 0 0 [67%N])]
+     [(1%N, 2%N, 2); (2%N, 3%N, 2); (3%N, 4%N, 2); (4%N, 5%N, 2); (5%N, 6%N, 2)].
+Definition rH_ : hostg :=
+  LG [(1%N, NA 79%N false 0 0 [67%N; 67%N]); (2%N, NA 67%N false 2 0 [67%N; 79%N]); (3%N, NA 67%N false 2 0 [67%N; 67%N]);
+      (4%N, NA 67%N false 2 0 [67%N; 67%N]); (5%N, NA 67%N false 2 0 [67%N; 79%N]); (6%N, NA 17010%N false 1 0 [])]
+     [(1%N, 2%N, 2); (1%N, 5%N, 2); (2%N, 3%N, 2); (3%N, 4%N, 2); (4%N, 5%N, 2)].
+Definition r_tpl : its := template true false rG_ rH_.
+Definition r_l : molg := dec_side iG C03_Model.eG r_tpl.
+Example comp_bt_hyps :
+  pair_wf rG_ rH_ /\ describes rG_ rH_ r_tpl /\ left_of r_tpl r_l /\ has_XH r_l = false /\
+  forallb (fun p : N * mnode => 0 <=? m_hc (snd p)) (gnodes r_l) = true /\
+  gwf (tr_host rG_) /\ gwf (tr_pat r_l) /\ oracle_ok (monos_on (tr_host rG_) (tr_pat r_l)) (tr_host rG_) (tr_pat r_l) /\
+  (0 <? length (comps (tr_pat r_l)))%nat && (length (comps (tr_pat r_l)) <? length (comps (tr_host rG_)))%nat = false /\
+  (length (comps (tr_host rG_)) <? length (comps (tr_pat r_l)))%nat = true.
+Proof.
+  assert (W : pair_wfb rG_ rH_ = true) by (vm_compute; reflexivity).
+  assert (NH : no_explicit_H rG_ = true) by (vm_compute; reflexivity).
+  assert (CC : true = true -> centre_carries (its_construct rG_ rH_) = true) by (intros _; vm_compute; reflexivity).
+  pose proof (template_describes true false rG_ rH_ W NH CC) as D. cbn [negb] in D. fold r_tpl in D.
+  assert (GH : gwf (tr_host rG_)) by (apply gwfb_spec; vm_compute; reflexivity).
+  assert (GP : gwf (tr_pat r_l)) by (apply gwfb_spec; vm_compute; reflexivity).
+  split; [exact (proj1 (pair_wfb_sound rG_ rH_ W))|]. split; [exact D|].
+  split; [exact (own_left_of r_tpl (d_wf _ _ _ D))|]. split; [vm_compute; reflexivity|]. split; [vm_compute; reflexivity|].
+  split; [exact GH|]. split; [exact GP|]. split; [exact (monos_on_oracle_ok _ _ GH GP)|]. split; vm_compute; reflexivity.
+Qed.
+Example comp_bt_values :
+  forallb (fun s : sarg =>
+             match read_its (api_engine (monos_on (tr_host rG_) (tr_pat r_l))) no_rematch (own_opts false false s (Some 100%N) false)
+                            rG_ (r_tpl, r_l, dec_side iH C03_Model.eH r_tpl) fresh with
+             | (Some gs, _) => existsb (fun T => regen_exact T rG_ rH_) gs
+             | _ => false end) [SMember 0%N; SMember 1%N; SMember 2%N] = true.
+Proof. vm_compute. reflexivity. Qed.
